@@ -6,6 +6,7 @@ let () =
   | [ _; "recv"; path ] -> Drv_tx.run_recv path
   | [ _; "send"; path ] -> Drv_tx.run_send path
   | [ _; "link"; path ] -> Drv_zlink.run path
+  | [ _; "daemon"; path ] -> Drv_zzdaemon.run path
   | [ _; "checksum"; path ] -> Drv_checksum.run path
   | [ _; "path"; path ] -> Drv_path.run path
   | [ _; "udp"; path ] -> Drv_udp.run path
